@@ -492,6 +492,32 @@ def r14_6(rep: Report) -> None:
             if ds:
                 return floordivs(sorted(ds, key=lambda n: n.lineno)[-1].value, depth + 1)
         return 0
+    # the duration added to the segment start is that of the fragment being served
+    first = sorted(defs, key=lambda n: n.lineno)[0]
+    dur_term = None
+    if isinstance(first.value, ast.BinOp) and isinstance(first.value.op, ast.Add):
+        for a, b in ((first.value.left, first.value.right), (first.value.right, first.value.left)):
+            if norm(a) == 'seg_start':
+                dur_term = b
+    if dur_term is None:
+        rep.note(f'R14.6: first seg_end definition `{norm(first)}` is not seg_start + <duration>; source of the '
+                 'duration not decided')
+        rep.ok(rid, construct, 'window end uses the served fragment', 'form not recognised (not decided)')
+    else:
+        txt = norm(dur_term)
+        if isinstance(dur_term, ast.Name):
+            ds = [n for n in ast.walk(fn) if isinstance(n, ast.Assign) and norm(n.targets[0]) == dur_term.id
+                  and n.lineno < first.lineno]
+            if ds:
+                txt = norm(sorted(ds, key=lambda n: n.lineno)[-1].value)
+        if 'mod_segment' in txt or 'trun' in txt:
+            rep.ok(rid, construct, 'window end uses the served fragment', txt)
+        else:
+            rep.fail(rid, construct, 'window end uses the served fragment',
+                     f'the segment window is [start, start + `{txt}`): that is not the duration of the fragment '
+                     'being served (segments[mod_segment].duration or its trun samples) - with a short last '
+                     'fragment or variable fragment durations an event is delivered twice or not at all',
+                     first)
     k = floordivs(last.value)
     if k >= 2:
         rep.fail(rid, construct, 'window end converted as one quantity',
@@ -520,7 +546,7 @@ def analyse(rep: Report) -> None:
     rep.rule('R14.4', 'event loop step and divisions are guarded positive', floor=3)
     rep.rule('R14.5', 'out-of-band listing shape', floor=6)
     rep.rule('R14.7', 'in-band events of a bounded schedule have ids below count', floor=1)
-    rep.rule('R14.6', 'segment window end is converted to the event timebase as one quantity', floor=1)
+    rep.rule('R14.6', 'segment window end: duration of the served fragment, converted as one quantity', floor=2)
     idx = Index(rep.repo, 'dashlive')
     rels = sorted(r for r in idx.by_rel if r.startswith(SCTE + '/')) + ['dashlive/mpeg/section_table.py']
     layout_rule(rep, idx, 'R14.1', rels, 12)
